@@ -1062,7 +1062,7 @@ def check(run):
             first.append(c)
     for i in range(24 if quick else 1200):          # rotated frames
         first.append(rot_case(r, "rmsd" if i % 2 == 0 else "eigenvector"))
-    n = 420 if quick else 12000
+    n = 300 if quick else 12000
     cases = list(first)
     target = len(first) + n
     while len(cases) < target:
